@@ -553,9 +553,14 @@ def run_case(case: dict) -> dict:
             res["excluded_by"] = sorted(hit)[0]
             return res
         if "crosstalk" in excl and known_crosstalk(w, obs, stmts):
-            res["status"] = "excluded"
-            res["excluded_by"] = "crosstalk"
-            return res
+            from ..static_trigger import crosstalk_possible
+
+            if crosstalk_possible(stmts, case["inputs"]):
+                res["status"] = "excluded"
+                res["excluded_by"] = "crosstalk"
+                return res
+            # the structure without a program shape that explains it is judged
+            probe(res, "crosstalk_structure_without_static_trigger")
         interp = lang.Interp(stmts)
         outs = c01.exported(stmts)
         by_name = {s[2]: s[3] for s in stmts if s[0] == "decl"}
